@@ -13,7 +13,7 @@ def resTag {α} (r : Res α) (f : α → String) : String :=
   | .depth => "depth"
 
 /-- `parse_grid_iterator` driven to the end (or the first error): one entry per `next()` call:
-`r <bytes pulled from the reader so far> {dict}`, `e` (an `Err` item), then `end`. -/
+`row <bytes pulled from the reader so far> {dict}`, `e` (an `Err` item), then `end`. -/
 def rowsTrace (bs : List UInt8) : String :=
   let fuel := fuelFor bs.length
   let total := bs.length
@@ -29,7 +29,7 @@ def rowsTrace (bs : List UInt8) : String :=
           match rowNext fuel 0 r names with
           | .ok (none, _) => join (acc ++ ["end"])
           | .ok (some row, r1) =>
-            go n r1 (acc ++ ["r", toString (total - r1.p.sc.inp.length)] ++ wTags row)
+            go n r1 (acc ++ ["row", toString (total - r1.p.sc.inp.length)] ++ wTags row)
           | .err => join (acc ++ ["e", "end"])
           | .panic => join (acc ++ ["panic"])
           | .diverge => join (acc ++ ["diverge"])
